@@ -265,8 +265,33 @@ func syntheticC20(c *Ctx, cn *types.Func) {
 					c.Bad("C20.synthetic", key, st.Pos(), "the created Field is allocated once outside the loop that appends it: every column appended from it is the same Field and carries the name of the last tag argument")
 				}
 			}
+			// only without an INTO target: with one, the tags are written as tags
+			// of the target measurement and get no column
+			guarded := false
+			for d := b; d != nil && !guarded; d = d.Idom() {
+				for _, pr := range d.Preds {
+					ifi, ok := pr.Instrs[len(pr.Instrs)-1].(*ssa.If)
+					if !ok || len(d.Preds) != 1 {
+						continue
+					}
+					bo, ok := ifi.Cond.(*ssa.BinOp)
+					if !ok || !isNilConst(bo.Y) {
+						continue
+					}
+					if _, fld, ok := fieldRef(bo.X); !ok || fld != "Target" {
+						continue
+					}
+					if (bo.Op == token.EQL && pr.Succs[0] == d) || (bo.Op == token.NEQ && pr.Succs[1] == d) {
+						guarded = true
+					}
+				}
+			}
+			if !guarded && !bad {
+				bad = true
+				c.Bad("C20.synthetic", key, a.Pos(), "the column is created on a path that does not test that the statement has no INTO target: with INTO, top()/bottom() tags are not result columns, so the names no longer line up with the columns")
+			}
 			if !bad {
-				c.OK("C20.synthetic", key, a.Pos(), "no alias stored; one Field per appended column")
+				c.OK("C20.synthetic", key, a.Pos(), "no alias stored; one Field per appended column; only without INTO")
 			}
 		}
 	}
